@@ -86,6 +86,30 @@ void UseVariant() {
   (void)std::get<int>(a); (void)std::get<0>(a);
 }
 
+struct Tracked {
+  Tracked() {}
+  Tracked(const Tracked&) {}
+  Tracked(Tracked&&) {}
+  Tracked& operator=(const Tracked&) { return *this; }
+  Tracked& operator=(Tracked&&) { return *this; }
+  ~Tracked() {}
+};
+
+// A Variant whose alternatives are all non-trivially destructible: every lifetime event is an explicit call.
+void UseVariant3() {
+  using V = Variant<std::string, std::vector<int>, Tracked>;
+  V a; V b{std::string{"x"}}; V c{std::vector<int>{1}}; V d{Tracked{}}; V e{EmptyVariant{}}; V f{b}; V g{std::move(c)};
+  a = b; a = std::move(f); a = std::string{"y"}; a = std::vector<int>{2}; a = Tracked{}; a = EmptyVariant{};
+  const std::string cs{"z"}; a = cs; const Tracked ct; a = ct;
+  a.Become(0); a.Become(1); a.Become(2); a.Become(5); a.Become(-1);
+  (void)a.index(); (void)a.empty(); (void)a.is<Tracked>();
+  (void)a.get<std::string>(); (void)a.get<std::vector<int>>(); (void)a.get<Tracked>(); (void)a.get<0>(); (void)a.get<1>(); (void)a.get<2>();
+  const V& ca = a; (void)ca.get<std::string>(); (void)ca.get<2>();
+  a.Visit([](auto&&) {});
+  ca.Visit([](const auto&) {});
+  (void)d; (void)e; (void)g;
+}
+
 void UseHandles() {
   using H = UniqueHandle<DefaultHandlePolicy<int, -1>>;
   H a; H b{3}; H c{std::move(b)}; a = std::move(c); (void)a.get(); (void)static_cast<bool>(a); (void)a.release(); a.close();
@@ -115,5 +139,5 @@ void All() {
   UseOptional<Cmp, int>(Cmp{1}, 2);
   UseResult<std::string>(std::string{"a"});
   UseResult<int>(1);
-  UseResultVoid(); UseVariant(); UseHandles(); UseEntry();
+  UseResultVoid(); UseVariant(); UseVariant3(); UseHandles(); UseEntry();
 }
